@@ -1,8 +1,10 @@
 """C15 — SQL filters select exactly the intended rows; values are always bound (ak/mtd_sql.py)."""
 import ast
+import datetime
 import os
 import re
 import sqlite3
+import warnings
 
 from harness.core import enc_str, dec_str
 
@@ -10,7 +12,11 @@ PROPERTY = "C15"
 READY = True
 THEOREMS = ["C15.clauses_ok", "C15.consts_ok", "C15.option_keys", "C15.only_rejections", "C15.selects_eval", "C15.selects",
             "C15.placeholders", "C15.placeholders_in_order", "C15.groups_parenthesised", "C15.values_only_bound", "C15.noninterference", "C15.none_ignored",
-            "C15.kwargs_order", "C15.in_semantics", "C15.returns_exactly", "C15.value_order", "C15.satisfied_iff", "C15.methods"]
+            "C15.kwargs_order", "C15.in_semantics", "C15.returns_exactly", "C15.value_order",
+            "C15.bound_values_are_callers", "C15.order_text_verbatim", "C15.order_keys_opaque", "C15.satisfied_iff", "C15.methods"]
+
+# sqlite3's own adapters for date / datetime are deprecated since Python 3.12 and still the default behaviour
+warnings.filterwarnings("ignore", r"The default (date|datetime) adapter is deprecated", DeprecationWarning)
 
 
 # ------------------------------------------------------------------ translator
@@ -213,15 +219,90 @@ def translate(repo):
 
 # ------------------------------------------------------------------ protocol (see lean/Drv/C15.lean)
 # python-side structures (JSON-free, rebuilt from the lines):
-#   value : None | int | str
+#   value : None | int | str | bytes | an object that the driver adapts itself (datetime, date, _Conf, _Reg)
 #   arg   : ("S", value) | ("L", [value]) | ("Z", [value])          (Z: a set, listed in its iteration order)
 #   cond  : ("T", field, op, arg) | ("P", field, arg) | ("A", k, field, arg) | ("B", k) | ("O", [cond], [(name, arg)])
 #   call  : {"args": [cond | None], "kw": [(name, arg)]}
-#   scen  : {"v", "pct", "from", "group", "order": None | [(col, desc)], "call"} (+ "method", "cols", "rows" on ids lines)
+#   scen  : {"v", "pct", "from", "group", "dorder" / "corder": ORDER BY as [(key, desc)], "call"} (+ "method", "rows" on
+#           ids lines); a key is a column or any other SQL expression of the caller
+
+class _Obj:
+    """an operand of a user class that is neither int, str nor bytes"""
+
+    def __init__(self, text):
+        self.text = text
+
+    def __eq__(self, other):
+        return type(other) is type(self) and other.text == self.text
+
+    def __hash__(self):
+        return hash((type(self).__name__, self.text))
+
+    def __repr__(self):
+        return "%s(%r)" % (type(self).__name__, self.text)
+
+
+class _Conf(_Obj):
+    """sqlite3 asks the object itself (`__conform__`) what to write"""
+
+    def __conform__(self, protocol):
+        if protocol is sqlite3.PrepareProtocol:
+            return self.text
+
+
+class _Reg(_Obj):
+    """an adapter for the class is registered at the driver"""
+
+
+sqlite3.register_adapter(_Reg, lambda o: o.text)
+_OBJ_CLASSES = ["datetime", "date", "conform", "registered-adapter"]
+
+
+def _obj_cls(v):
+    """which kind of adapted object v is (None: a plain value / something else)"""
+    if isinstance(v, datetime.datetime):
+        return 0
+    if isinstance(v, datetime.date):
+        return 1
+    if type(v) is _Conf:
+        return 2
+    if type(v) is _Reg:
+        return 3
+    return None
+
+
+def _db(v):
+    """what the driver (sqlite3) writes for a value: its own, documented adaptation of date / datetime
+    (isoformat, a blank between date and time), the object's / the registered adapter's answer; bytes-likes are
+    one BLOB; any other value goes as it is"""
+    if v is None or type(v) in (int, str, bytes):
+        return v
+    k = _obj_cls(v)
+    if k == 0:
+        return v.isoformat(" ")
+    if k == 1:
+        return v.isoformat()
+    if k is not None:
+        return v.text
+    return bytes(v) if isinstance(v, (bytearray, memoryview)) else v
+
+
+def _mk_obj(k, img):
+    if k == 0:
+        return datetime.datetime.fromisoformat(img)
+    if k == 1:
+        return datetime.date.fromisoformat(img)
+    return (_Conf, _Reg)[k - 2](img)
+
 
 def _enc_value(v):
     if v is None:
         return "N"
+    if type(v) is int:
+        return "I%d" % v
+    k = _obj_cls(v)
+    if k is not None:
+        return "D%d:%s" % (k, enc_str(_db(v)))
     if isinstance(v, int):
         return "I%d" % v
     if isinstance(v, (bytes, bytearray, memoryview)):
@@ -318,9 +399,26 @@ def _alias_of(pfx):
     return "" if pfx in ("", "t.") else " AS " + pfx[:-1]
 
 
+def order_exprs(s):
+    """the keys of the ORDER BY in effect that are not plain columns of the table: expressions written by the caller"""
+    cols = cols_of(s)
+    out = []
+    for k, _ in (eff_order(s) or []):
+        if k not in cols and k not in out:
+            out.append(k)
+    return out
+
+
+def atoms_of(s):
+    """the caller's own SQL expressions whose value per row is data for the model and the oracle: the static
+    condition texts, then the ORDER BY keys that are not columns"""
+    out = statics_of(s["call"])
+    return out + [k for k in order_exprs(s) if k not in out]
+
+
 def static_values(s, atoms):
-    """what SQLite computes for each static condition text on each row (data supplied to the model and to the
-    oracle: the text is the caller's own SQL)"""
+    """what SQLite computes for each static condition text / ORDER BY key expression on each row (data supplied to
+    the model and to the oracle: the text is the caller's own SQL)"""
     if not atoms or not s["rows"]:
         return [[] for _ in s["rows"]]
     conn = sqlite3.connect(":memory:")
@@ -343,7 +441,7 @@ def static_values(s, atoms):
 def enc_line(cmd, s):
     out = [cmd] + _enc_scen(s)
     if cmd == "ids":
-        atoms = statics_of(s["call"])
+        atoms = atoms_of(s)
         vals = static_values(s, atoms)
         out += [s["method"], str(len(atoms))] + [enc_str(a) for a in atoms] + [str(len(s["rows"]))]
         for r, av in zip(s["rows"], vals):
@@ -373,6 +471,11 @@ def _dec_value(t):
         return int(t[1:])
     if t[0] == "X":
         return b"" if t == "X-" else bytes(int(x) for x in t[1:].split(","))
+    if t[0] == "D":
+        k, img = t[1:].split(":")
+        v = _mk_obj(int(k), dec_str(img))
+        assert _db(v) == dec_str(img), "image does not round-trip"
+        return v
     assert t[0] == "T"
     return dec_str(t[1:])
 
@@ -747,7 +850,9 @@ _CMP = ("=", "!=", "<", ">", "<=", ">=")
 
 
 def _is_scalar(v):
-    return v is None or (isinstance(v, (int, str, bytes, bytearray, memoryview)) and not isinstance(v, bool))
+    """a value that the driver binds as one parameter"""
+    return v is None or type(v) in (int, str, bytes) or _obj_cls(v) is not None or (
+        isinstance(v, (int, str, bytes, bytearray, memoryview)) and not isinstance(v, bool))
 
 
 def _leaf_ok(op, a):
@@ -812,7 +917,8 @@ def _scen_ok(s):
 
 
 def _norm_blob(v):
-    return bytes(v) if isinstance(v, (bytearray, memoryview)) else v
+    """the value as the database sees it (an adapted object: the driver's image of it)"""
+    return _db(v)
 
 
 def _storage_class(v):
@@ -916,8 +1022,8 @@ def _selected(s):
                 v = r[col]
                 return (0, 0) if v is None else (_storage_class(v), v)
             return f
-        for col, desc in reversed(order):
-            out.sort(key=key(col), reverse=desc)
+        for col, desc in reversed(order):      # a key that is no column: the caller's expression, its value is supplied
+            out.sort(key=key(col if col in cols else ("static", col)), reverse=desc)
     return [r[cols[0]] for r in out]
 
 
@@ -960,7 +1066,7 @@ def _call_bindings(call):
 
 def _same_values(bindings, params):
     """the bound values are exactly the caller's values (as a multiset; the order is checked by _aligned)"""
-    def key(v):
+    def key(v):                    # compared as the driver writes them: an object of another class by its image
         v = _norm_blob(v)
         return (type(v).__name__, repr(v))
     return sorted(key(v) for _, _, v in bindings) == sorted(key(v) for v in params)
@@ -972,6 +1078,7 @@ def _aligned(sql, ph, bindings, params):
     fields = set(f for f, _, _ in bindings)
     where = {}
     for f, op, v in bindings:                       # markers are unique, None (kept as None) may repeat
+        v = _norm_blob(v)
         where.setdefault((type(v).__name__, v), set()).add((f, op))
     toks = _mask_literals(sql).replace("(", " ").replace(")", " ").replace(",", " ").split()
     cur_f, cur_op, seen_ph, slots = None, [], False, []
@@ -1049,6 +1156,13 @@ def _mark_call(call):
         if v is None:
             return None
         n[0] += 1
+        k = _obj_cls(v)
+        if k == 0:
+            return datetime.datetime(1990, 1, 1) + datetime.timedelta(seconds=n[0])
+        if k == 1:
+            return datetime.date(1990, 1, 1) + datetime.timedelta(days=n[0])
+        if k is not None:
+            return type(v)("~#mk%d'\";--#~" % n[0])
         if isinstance(v, (bytes, bytearray, memoryview)):
             return b"~#mk%d#~" % n[0]
         return 7700000 + n[0] if isinstance(v, int) else "~#mk%d'\";--#~" % n[0]
@@ -1086,7 +1200,9 @@ def _oracle_line(cmd, s, rep):
         for t in statics_of(s["call"]):
             if " " + t + " " not in sql:
                 return "static-text-changed: the static condition %r does not reach the statement as written: %r" % (t, sql)
-        for t in [s["from"]] + ([s["group"]] if s["group"] else []) + [col for col, _ in (eff_order(s) or [])]:
+        # (an ORDER BY key that is an expression is judged by the order of the returned rows, on the ids lines)
+        for t in [s["from"]] + ([s["group"]] if s["group"] else []) + [col for col, _ in (eff_order(s) or [])
+                                                                         if col in cols_of(s)]:
             if t not in sql:
                 return "caller-text-changed: %r is not in the statement %r" % (t, sql)
         if not _same_values(_call_bindings(s["call"]), params):
@@ -1099,7 +1215,7 @@ def _oracle_line(cmd, s, rep):
         sql2, params2 = log2[0]
         if sql2 != sql:
             return "text-depends-on-values: %r became %r when only the values changed; %s" % (sql, sql2, desc)
-        if "mk" in sql2.replace(s["from"], "") or "77000" in sql2.replace(s["from"], ""):
+        if "mk" in sql2.replace(s["from"], "") or "77000" in sql2.replace(s["from"], "") or "1990-" in sql2:
             return "value-in-text: a condition value appears in the SQL text %r" % sql2
         b2 = _call_bindings(s2["call"])
         if not _same_values(b2, params2):
@@ -1119,9 +1235,19 @@ def _oracle_line(cmd, s, rep):
         exp = "err ValueError" if len(want) > 1 else ("ok %d" % want[0] if want else "ok none")
     else:
         exp = "err ValueError" if len(want) > 1 else ("ok %d" % want[0] if want else "ok")
+    if rep != exp and m == "list" and eff_order(s) is not None and rep.startswith("ok") and not order_total(s):
+        # rows that tie under the requested keys may come in any order (never generated; a replay edited by hand)
+        got = rep.split()[1:]
+        if sorted(got) == sorted(str(i) for i in want):
+            pos = {str(r[0]): k for k, r in enumerate(s["rows"])}
+            sub = dict(s, rows=[s["rows"][pos[i]] for i in got])
+            if [str(i) for i in _selected(dict(sub, call={"args": [], "kw": []}, statics=[s["statics"][pos[i]] for i in got]))] == got:
+                return None            # the sequence returned is sorted under the keys (a stable sort leaves it as it is)
     if rep != exp:
-        return "rows: %s gives '%s', the rows satisfying all conditions are '%s'; %s; table %r %r" % (
-            m, rep, exp, desc, cols_of(s), s["rows"] if len(str(s["rows"])) < 600 else "(%d rows)" % len(s["rows"]))
+        o = eff_order(s)
+        return "rows: %s gives '%s', the rows satisfying all conditions%s are '%s'; %s; table %r %r" % (
+            m, rep, "" if o is None else " in the order requested by ORDER BY %r" % _order_text(o), exp, desc, cols_of(s),
+            s["rows"] if len(str(s["rows"])) < 600 else "(%d rows)" % len(s["rows"]))
     return None
 
 
@@ -1235,19 +1361,44 @@ def kw_texts():
 
 
 _BLOBS = [b"", b"ab", b"a", b"\x00", b"\xff\xfe", b"abc", b"ab\x00", b"0", b"b"]
+_DT = datetime.datetime
+# operands of classes that the driver adapts itself (the module under test documents no value types and must hand
+# over whatever object it is given): several objects per class, close to each other in the driver's spelling
+_OBJS = [_DT(2024, 1, 2, 3, 4, 5), _DT(2024, 1, 2, 0, 0, 0), _DT(2024, 1, 2, 23, 0, 0), _DT(2024, 1, 3, 0, 0, 0),
+         _DT(1999, 12, 31, 23, 59, 59, 999999), _DT(2024, 1, 2, 3, 4, 5, tzinfo=datetime.timezone.utc), _DT(1, 1, 1),
+         datetime.date(2024, 1, 2), datetime.date(2024, 1, 3), datetime.date(1999, 12, 31), datetime.date(9999, 12, 31),
+         _Conf("ab"), _Conf("2024-01-02"), _Conf("it's"), _Conf("a%"), _Conf(""), _Conf("5"),
+         _Reg("ab"), _Reg("x'; DROP TABLE t;--"), _Reg(""), _Reg("2024-01-02 03:04:05"), _Reg("?")]
+# cells of tables that such operands are compared with: what the same driver wrote for them, and other spellings
+# of the same moment / object that a conversion of the operand might produce instead
+_OBJ_NEAR = ["2024-01-02T03:04:05", "2024-01-02T00:00:00", "2024-01-02 03:04", "2024-01-02 03:04:05.000000", "2024-01-03T00:00:00",
+             "datetime.datetime(2024, 1, 2, 3, 4, 5)", "2024-01-02 00:00:00", "1999-12-31T23:59:59.999999", "_Conf('ab')",
+             "2024-01-02T03:04:05+00:00", "0001-01-01T00:00:00", "2024-01-02T23:00:00", "Mon Jan  2 03:04:05 2024"]
+_OBJ_BY_IMAGE = {}
+for _o in _OBJS:
+    _OBJ_BY_IMAGE.setdefault(_db(_o), []).append(_o)
 
 
-def _g_value(rng, field, allow_none=True):
+def _g_value(rng, field, allow_none=True, cell=False):
+    """cell: a value stored in the table (None, int, str, bytes), otherwise an operand"""
     r = rng.random()
     if allow_none and r < 0.12:
         return None
     if _CTX.get("blobs") and 0.12 <= r < 0.34:
         return rng.choice(_BLOBS)
+    if _CTX.get("objs") and 0.34 <= r < 0.62:
+        if cell:
+            return rng.choice(_OBJ_NEAR) if rng.random() < 0.35 else _db(rng.choice(_OBJS))
+        return rng.choice(_OBJS)
     if r > 0.9:
         return rng.choice(kw_texts())
     pool = _CTX["pool"].get(field)
     if pool and rng.random() < 0.55:
         v = rng.choice(pool)
+        if _CTX.get("objs") and not cell and isinstance(v, str) and rng.random() < 0.7:
+            near = _OBJ_BY_IMAGE.get(v) or _OBJ_BY_IMAGE.get(v.replace("T", " "))
+            if near:                          # an object that the driver spells like (or nearly like) this cell
+                return rng.choice(near)
         if v is not None:
             return v
     ints_first = field == _CTX["intcol"]
@@ -1294,7 +1445,8 @@ def _g_bad_leaf(rng):
         a = rng.choice([("S", _g_value(rng, f, False)), ("L", _g_list(rng, f)), ("Z", _g_set(rng, f))])
         return ("T", f, _case_op(rng, rng.choice(["IS NULL", "IS NOT NULL"])), a)
     if k == 3:
-        a = rng.choice([("S", rng.choice(_INTS)), ("S", None), ("L", [rng.choice(_PATTERNS)]), ("Z", [])])
+        a = rng.choice([("S", rng.choice(_INTS)), ("S", None), ("L", [rng.choice(_PATTERNS)]), ("Z", []),
+                        ("S", rng.choice(_OBJS))])                       # LIKE wants a str
         return ("T", f, _case_op(rng, rng.choice(["LIKE", "NOT LIKE"])), a)
     if k == 4:
         return ("A", rng.randrange(50), f, ("S", _g_value(rng, f)))
@@ -1407,28 +1559,84 @@ def _g_rows(rng, nmax, gen_cell):
     return [[i] + [gen_cell(k) for k in range(3)] for i in ids]
 
 
-def _g_spec(rng, pfx, names):
+# an item of an ORDER BY text is any SQL expression, not only a column: unary minus / plus (also set off by blanks
+# or parentheses), arithmetic, function calls (with commas of their own), tests, CASE. {c}: a column, {i}: the id
+_KEY_EXPRS = ["-{c}", "-{c}", "- {c}", "-  {c}", "+{c}", "-({c})", "(-{c})", "-{i}", "- {i}", "-{c} - {i}", "{i} - {c}", "0 - {c}",
+              "ABS({c})", "-ABS({c})", "{c} IS NULL", "{c} IS NOT NULL", "COALESCE({c}, 0)", "COALESCE({c}, -1)", "-COALESCE({c}, {i})",
+              "LENGTH({c})", "-LENGTH({c})", "{c} + 0", "{c} * -1", "TYPEOF({c})", "NULLIF({c}, 0)", "MAX({c}, 0)", "MIN({i}, 3)",
+              "{c} = 1", "{c} > {i}", "CASE WHEN {c} IS NULL THEN 1 ELSE 0 END", "CASE WHEN {c} < 0 THEN -{c} ELSE {c} END",
+              "{i} / 2", "-{i} / 2", "{c} IN (1, 2, 5)", "-\t{c}", "-\n{c}"]
+
+
+def keys_fit(pfx, names, rows, keys):
+    """SQLite computes every key on every row and the values are NULL / integer / text / BLOB (an overflowing
+    expression fails or turns REAL: outside the model's values)"""
+    s = {"pfx": pfx, "names": list(names), "rows": rows or [[0, None, None, None]]}
+    try:
+        vals = static_values(s, list(keys))
+    except (sqlite3.Error, OverflowError, UnicodeDecodeError):
+        return False
+    return all(v is None or isinstance(v, (int, str, bytes)) for r in vals for v in r)
+
+
+def keys_total(pfx, names, rows, keys):
+    """no two rows tie under the keys (the id column is unique; other keys: by the values SQLite computes), so the
+    requested order determines one sequence"""
+    if pfx + "id" in keys or len(rows or []) < 2:
+        return True
+    try:
+        vals = static_values({"pfx": pfx, "names": list(names), "rows": rows}, list(keys))
+    except (sqlite3.Error, OverflowError, UnicodeDecodeError):
+        return False
+    seen = set((tuple((type(v).__name__, v) for v in r)) for r in vals)
+    return len(seen) == len(rows)
+
+
+def order_total(s):
+    o = eff_order(s)
+    return o is None or keys_total(s["pfx"], s["names"], s.get("rows"), [k for k, _ in o])
+
+
+def _g_key(rng, pfx, names, rows):
+    col = pfx + rng.choice(names)
+    if rng.random() < 0.65:
+        return col
+    for _ in range(4):
+        k = rng.choice(_KEY_EXPRS).format(c=col, i=pfx + "id")
+        if keys_fit(pfx, names, rows, [k]):
+            return k
+    return col
+
+
+def _g_spec(rng, pfx, names, rows=None):
     keys = []
-    if rng.random() < 0.55:
-        for col in rng.sample(names, rng.choice([1, 1, 2])):
-            keys.append((pfx + col, rng.random() < 0.4))
+    if rng.random() < 0.6:
+        for _ in range(rng.choice([1, 1, 2])):
+            k = _g_key(rng, pfx, names, rows)
+            if k not in [x for x, _ in keys]:
+                keys.append((k, rng.random() < 0.4))
+    elif rows is not None and rng.random() < 0.5:       # a single item that is an expression of the unique id
+        keys.append((rng.choice(["-{i}", "- {i}", "-({i})", "0 - {i}", "-{i} * 2", "{i} * -1", "+{i}"]).format(i=pfx + "id"),
+                     rng.random() < 0.4))
+    if keys and rows is not None and rng.random() < 0.6 and keys_total(pfx, names, rows, [k for k, _ in keys]):
+        return keys                                     # no ties on this table: the text has no `id` item (maybe one item)
     keys.append((pfx + "id", rng.random() < 0.4))      # the unique id makes the requested order total
     return keys
 
 
-def _g_orders(rng, pfx, names):
+def _g_orders(rng, pfx, names, rows=None):
     """(default ORDER BY of the method, `_order_by` of the call)"""
     r = rng.random()
     if r < 0.22:
         return None, None
     if r < 0.42:
-        return _g_spec(rng, pfx, names), None
+        return _g_spec(rng, pfx, names, rows), None
     if r < 0.67:
-        return None, ("S", _g_spec(rng, pfx, names))
+        return None, ("S", _g_spec(rng, pfx, names, rows))
     if r < 0.84:
-        return _g_spec(rng, pfx, names), ("S", _g_spec(rng, pfx, names))      # the call overrides the default
+        return _g_spec(rng, pfx, names, rows), ("S", _g_spec(rng, pfx, names, rows))      # the call overrides the default
     if r < 0.94:
-        return _g_spec(rng, pfx, names), ("V", None)                           # _order_by=None cancels the default
+        return _g_spec(rng, pfx, names, rows), ("V", None)                           # _order_by=None cancels the default
     return None, ("V", None)
 
 
@@ -1442,6 +1650,7 @@ def _g_scenario(rng, tier, malformed, big=0):
     pfx = rng.choice(_PREFIXES)
     # a lone % in the caller's texts: only for the ? style (a %s-style caller writes %%)
     _CTX["blobs"] = rng.random() < 0.2          # bytes / bytearray / memoryview values and BLOB cells
+    _CTX["objs"] = rng.random() < 0.2           # operands of classes that the driver adapts itself
     _CTX["percent_ok"] = kind == "marks-percent" or pfx == '"z%s".' or rng.random() < 0.3
     fields = [pfx + n for n in names]
     _CTX.update(fields=fields, intcol=fields[0], pool={}, names=names)
@@ -1449,7 +1658,7 @@ def _g_scenario(rng, tier, malformed, big=0):
     def cell(k):
         if big and k == 0:
             return None if rng.random() < 0.15 else rng.randrange(2 * big)
-        return _g_value(rng, fields[k])
+        return _g_value(rng, fields[k], cell=True)
     rows = _g_rows(rng, 8 if thorough or big else 6, cell)
     _CTX["pool"] = {f: [r[i + 1] for r in rows] for i, f in enumerate(fields)}
     ncond = rng.choice([0, 1, 1, 1, 2, 2, 3] + ([4, 5] if thorough else []))
@@ -1477,7 +1686,7 @@ def _g_scenario(rng, tier, malformed, big=0):
             kw = [(k, a) for k, a in kw if k != f] + [(f, ("L", vals))]
         if leaf is not None:
             args.insert(rng.randint(0, len(args)), leaf)
-    dorder, corder = _g_orders(rng, pfx, names)
+    dorder, corder = _g_orders(rng, pfx, names, rows)
     if malformed:
         r = rng.random()
         if r < 0.4 or r > 0.8:
@@ -1488,7 +1697,7 @@ def _g_scenario(rng, tier, malformed, big=0):
         if 0.4 <= r < 0.9:
             _insert_somewhere(rng, args, _g_bad_leaf(rng))
         if r >= 0.9 or rng.random() < 0.1:
-            corder = ("V", rng.choice([5, 0, -1]))                              # " ORDER BY " + 5: TypeError
+            corder = ("V", rng.choice([5, 0, -1, _OBJS[0], _OBJS[-1]]))         # " ORDER BY " + 5: TypeError
     for _ in range(rng.choice([0, 0, 0, 1, 2])):
         args.insert(rng.randint(0, len(args)), None)
     group = None
@@ -1730,6 +1939,63 @@ def _blob_scenarios():
                 yield mk_scenario(call, rows, v=(k * 67) % 1024, dorder=dorder)
 
 
+def _adapted_scenarios():
+    """operands of classes that only the driver knows how to write (datetime, date, an object with __conform__, an
+    object of a class with a registered adapter) in every form of a condition, on rows that hold what the same
+    driver wrote for such objects and other spellings of the same moment"""
+    k = 0
+    for j, val in enumerate(_OBJS):
+        img = _db(val)
+        other = _OBJS[(j * 5 + 3) % len(_OBJS)]
+        near = [img.replace(" ", "T"), img[:10], img + ".000000", img.upper(), repr(val)]
+        rows = [[0, img, near[0], None], [1, near[0], img, img], [2, None, near[1], near[2]], [3, near[1], None, _db(other)],
+                [4, _db(other), near[3], near[0]], [5, 5, near[4], img], [6, img + " ", "", 0]]
+        for call in ({"args": [("T", "a", "=", ("S", val))], "kw": []}, {"args": [("T", "b", "!=", ("S", val))], "kw": []},
+                     {"args": [("P", "c", ("S", val))], "kw": []}, {"args": [], "kw": [("a", ("S", val))]},
+                     {"args": [("O", [("P", "a", ("S", val))], [("b", ("S", val))])], "kw": []},
+                     {"args": [("T", "a", "IN", ("L", [val, other]))], "kw": []}, {"args": [("T", "a", "in", ("L", [other, 5, None, val]))], "kw": []},
+                     {"args": [("T", "b", "NOT IN", ("Z", [val]))], "kw": [("c", ("S", None))]},
+                     {"args": [("T", "b", "NOT IN", ("L", [val, other]))], "kw": []},
+                     {"args": [("T", "a", "<", ("S", val))], "kw": []}, {"args": [("T", "c", ">=", ("S", val)), None], "kw": []},
+                     {"args": [("T", "b", ">", ("S", val)), ("T", "b", "<=", ("S", other))], "kw": []},
+                     {"args": [("T", "a", "=", ("L", [val, val]))], "kw": [("b", ("L", [val]))]},
+                     {"args": [("T", "a", "!=", ("L", [val]))], "kw": []}, {"args": [], "kw": [("c", ("L", [other, val]))]}):
+            for dorder in (None, [("a", False), ("id", True)]):
+                k += 1
+                yield mk_scenario(call, rows, v=(k * 67) % 1024, dorder=dorder)
+
+
+def _order_expr_scenarios():
+    """ORDER BY items that are expressions (a leading minus sign is SQL's unary minus, not a direction), as the
+    default order and per call, with and without DESC, on columns with NULLs / negative numbers / texts / mixed"""
+    tables = [[[1, 7, "James", None], [2, None, "Arnold", 3], [3, 42, "Chuck", "x"], [4, None, "Harry", -3], [5, 1, "Asimov", "10"]],
+              [[0, -3, "b", 2], [1, 5, "", 2], [2, 0, "B", None], [3, "5", None, 1], [4, 10, "a", 1], [7, -10, "ab", None]],
+              [[1, 1, None, "a"], [2, 1, None, "A"], [3, None, 0, ""], [4, 2, 0, None]],
+              # no two rows tie in any column (one NULL each): a one-item ORDER BY text determines the sequence
+              [[1, 3, -1, None], [2, None, 5, 2], [3, -2, None, 10], [4, 8, 0, -4], [6, 0, 7, 1]]]
+    calls = [{"args": [], "kw": []}, {"args": [("T", "id", ">", ("S", 0))], "kw": []},
+             {"args": [("O", [("T", "a", "!=", ("S", None)), ("T", "b", "LIKE", ("S", "a%"))], [])], "kw": []}]
+    k = 0
+    for rows in tables:
+        for tmpl in sorted(set(_KEY_EXPRS)):
+            for col in ("a", "b", "c"):
+                key = tmpl.format(c=col, i="id")
+                if "{c}" not in tmpl and col != "a":
+                    continue
+                if not keys_fit("", ["a", "b", "c"], rows, [key]):
+                    continue
+                shapes = ["with-id"] + (["one-item"] if keys_total("", ["a", "b", "c"], rows, [key]) else [])
+                for desc in (False, True):
+                    for shape in shapes:
+                        k += 1
+                        spec = [(key, desc)] + ([("id", k % 4 == 0)] if shape == "with-id" else [])
+                        if k % 5 == 0 and shape == "with-id":
+                            spec.insert(0, ("b" if col != "b" else "a", k % 2 == 0))
+                        dorder, corder = [(spec, None), (None, ("S", spec)), ([("id", True)], ("S", spec))][k % 3]
+                        yield mk_scenario(calls[k % len(calls)], rows, v=(k * 73) % 1024, dorder=dorder, corder=corder,
+                                          scal=[None, 1, 0][k % 3])
+
+
 def _long_list_scenarios(rng, sizes, per_size):
     for n in sizes:
         for _ in range(per_size):
@@ -1745,6 +2011,12 @@ def gen_cases(rng, tier):
         yield _mk_case(s, "where-in-select-text", rng)
     for s in _blob_scenarios():
         yield _mk_case(s, "blob-values", rng)
+    for i, s in enumerate(_adapted_scenarios()):
+        if tier != "quick" or i % 2 == rng.randrange(2):
+            yield _mk_case(s, "adapted-object-values", rng)
+    for i, s in enumerate(_order_expr_scenarios()):
+        if tier != "quick" or i % 2 == rng.randrange(2):
+            yield _mk_case(s, "order-by-expressions", rng)
     for s in _static_scenarios():
         yield _mk_case(s, "static-conditions", rng)
     for i, s in enumerate(_keywordish_scenarios()):
@@ -1770,7 +2042,7 @@ def gen_cases(rng, tier):
                 s2 = _g_scenario(rng, tier, False)
                 s2.update({k: s1[k] for k in ("from", "group", "dorder", "pfx", "names", "v", "rows")})
                 s2["corder"] = s2["corder"] if s2["corder"] is None or s2["corder"][0] == "V" else \
-                    ("S", _g_spec(rng, s1["pfx"], s1["names"]))
+                    ("S", _g_spec(rng, s1["pfx"], s1["names"], s1["rows"]))
                 s2["call"] = _rename_fields(s2["call"], s1)
                 lines += _lines_of(s2, rng)
             yield {"lines": lines, "meta": {"kind": "same-method-object"}}
@@ -1810,6 +2082,10 @@ def search_cases(rng, tier):
         yield _mk_case(s, "search-names")
     for s in _blob_scenarios():
         yield _mk_case(s, "blob-values")
+    for s in _adapted_scenarios():
+        yield _mk_case(s, "adapted-object-values")
+    for s in _order_expr_scenarios():
+        yield _mk_case(s, "order-by-expressions")
     for s in _where_select_scenarios():
         yield _mk_case(s, "where-in-select-text")
     yield from _marks_scenarios()
@@ -1880,6 +2156,17 @@ def _smaller_conds(c):
 
 
 def shrink(case):
+    """smaller cases; a candidate in which two rows tie under the ORDER BY in effect is skipped (the requested order
+    would no longer determine one sequence)"""
+    for c in _shrink(case):
+        try:
+            if all(order_total(dec_line(l)[1]) for l in c["lines"] if l.startswith("ids ")):
+                yield c
+        except Exception:
+            continue
+
+
+def _shrink(case):
     lines = case["lines"]
     if len(lines) > 1:
         for i in range(len(lines)):
@@ -1970,6 +2257,17 @@ def tags(case, replies):
         yield "group-by"
     if " X" in case["lines"][0] or any(" X" in l for l in case["lines"]):
         yield "blob-values-or-cells"
+    for k, name in enumerate(_OBJ_CLASSES):
+        if any(" D%d:" % k in l for l in case["lines"]):
+            yield "operand-class:" + name
+    o = eff_order(s)
+    if o is not None and s["pfx"] + "id" not in [k for k, _ in o]:
+        yield "order-text:%s-without-id" % ("one-item" if len(o) == 1 else "items")
+    elif o is not None and len(o) == 1:
+        yield "order-text:one-item"
+    for key in order_exprs(s):
+        yield "order-key:" + ("unary-minus" if key.lstrip("(").startswith("-") else "expression") + \
+            (":with-comma" if "," in key else "")
     texts = caller_texts(s)
     if "WHERE" in s["from"].upper():
         yield "select-text-with-WHERE"
@@ -2028,16 +2326,23 @@ RULE = ("a case = one scenario: table t(id, 3 columns named plainly / with leadi
         "SQL keywords, optionally written qualified) of 0-6 rows [thorough: 0-8] over NULL/ints/texts; 0-3 [0-5] positional "
         "conditions incl. OR groups nested up to 2 and static (plain string) conditions, None arguments, 0-3 keyword filters; "
         "values incl. every spelling of the clause tables' keys and texts (IS NULL, in, = ?, 0, FALSE, %s ...) in every form of a "
-        "condition on rows holding them; default ORDER BY and/or _order_by "
-        "(text, None, not a text), _as_scalars; value lists of 0-4 and of 10/999/1000/1001/2500 values (duplicates, NULLs) - asked "
+        "condition on rows holding them; bytes-likes; in 20% of the scenarios operands of classes that only the driver adapts "
+        "(datetime incl. microseconds / tz, date, an object with __conform__, an object of a class with a registered adapter) "
+        "against cells holding the driver's spelling of them and near spellings (T instead of the blank, date only, ...); "
+        "default ORDER BY and/or _order_by (text, None, not a text) whose items are columns or - in 35% of the items - SQL "
+        "expressions (unary minus/plus with and without blanks / parentheses, arithmetic, ABS/COALESCE/LENGTH/... calls with "
+        "commas of their own, IS NULL, CASE; each with and without DESC), with a closing id item or - when no two rows tie - "
+        "without it (one-item texts included), _as_scalars; value lists of 0-4 and of 10/999/1000/1001/2500 values (duplicates, NULLs) - asked "
         "as sql / params / ids(list) and some of ids(one | one_or_none | SqlMethodT.one_or_none) on ONE SqlMethod object; 3% "
         "of the cases continue with other calls on the same object; non-trivial = at least one condition or keyword filter; "
         "distinct by protocol text")
-TRUSTED = ["sqlite3 / SQLite 3.40.1 (evaluation of the generated statement; refusal to bind list/tuple/set)",
+TRUSTED = ["sqlite3 / SQLite 3.40.1 (evaluation of the generated statement; refusal to bind list/tuple/set; its adaptation of "
+           "datetime / date (isoformat, blank separator), of objects with __conform__ and of classes with a registered adapter; "
+           "the value it computes per row for a static condition text / an ORDER BY key expression)",
            "str.upper on ASCII operator names", "CPython set iteration order (PYTHONHASHSEED=0 set by ./check)"]
 ASSUMPTIONS = ["SQLite evaluates the text render(w) as the model's semW says and orders rows as the model's rowBefore says "
                "(modelled, not verified; exercised by every ids line on a real in-memory database)",
-               "columns without type affinity; values are None, int (64 bit), str without NUL or bytes/bytearray/memoryview (one BLOB; "
+               "columns without type affinity; values are None, int (64 bit), str without NUL, bytes/bytearray/memoryview or an object that the driver adapts to a text (one BLOB; "
                "LIKE never matches a BLOB: this SQLite is built with LIKE_DOESNT_MATCH_BLOBS); operator names are ASCII; "
                "column expressions are what the caller would write in SQL (a keyword as column name is written quoted)",
                "the caller's own texts contain no placeholder character: decidable predicate `clean`, evaluated by the driver on "
@@ -2045,6 +2350,14 @@ ASSUMPTIONS = ["SQLite evaluates the text render(w) as the model's semW says and
                "a static condition is the caller's own SQL: an opaque boolean expression whose value per row is computed by SQLite "
                "and supplied to the model and the oracle; at top level it is AND-ed as it stands, so a top-level static text with "
                "a bare OR next to other conditions is outside the property (inside _or(...) it is inside)",
+               "an operand that is neither None, int, str nor bytes-like is an object the driver adapts when it binds it: the "
+               "condition means the comparison with what the driver writes for the object (sqlite3: a text; model: Value.obj with "
+               "that image, Value.db); the oracle compares bound values as the driver writes them, so a code that spelled the "
+               "object exactly like the driver would pass the oracle (and differ from the model, which hands over the object)",
+               "an item of the ORDER BY text is the caller's own SQL expression: its value per row is computed by SQLite and "
+               "supplied to the model and the oracle, rows are ordered by these values in SQLite's order of values (no COLLATE, "
+               "NULLS FIRST/LAST or ASC spelling is generated; expressions that overflow or turn REAL on the table are not used); "
+               "ORDER BY texts under which two rows tie are not generated (the sequence would be SQLite's choice)",
                "'=' with a set is out of domain (a set is refused by sqlite3 as a parameter: generated only in the malformed "
                "stream); GROUP BY is text only (rows are computed only for GROUP BY id)"]
 LEVEL_TEXT = ("Proved in Lean for all calls, rows and tables, on the model that the driver executes: the value of the generated "
@@ -2054,23 +2367,38 @@ LEVEL_TEXT = ("Proved in Lean for all calls, rows and tables, on the model that 
               "(names read from the source) is an equality filter, in any order) [selects_eval, selects, satisfied_iff, "
               "none_ignored, kwargs_order, option_keys, in_semantics]; what run returns: exactly the satisfying rows, permuted "
               "into the ORDER BY in effect (_order_by overrides, None cancels the default) under a model of SQLite's value order "
-              "proved to be a strict total order, then list/one/one_or_none [returns_exactly, value_order, methods]; one "
+              "proved to be a strict total order, then list/one/one_or_none [returns_exactly, value_order, methods]; the ORDER BY "
+              "text in effect reaches the statement character by character behind ' ORDER BY ' - nothing in it is split, trimmed "
+              "or re-spelled, so '-col' stays SQL's unary minus - and a key is an opaque expression: the order of two rows depends "
+              "on it only through the values computed for that text [order_text_verbatim, order_keys_opaque]; every bound value "
+              "is one of the objects the caller wrote, handed over as it is - also an object of a class that only the driver "
+              "adapts (datetime, date, __conform__, registered adapter: Value.obj), which is compared as the driver's image of it "
+              "and refused by LIKE as by the code [bound_values_are_callers]; one "
               "placeholder mark per bound value under a decidable cleanliness predicate checked on every request, every clause "
               "consuming exactly the values of its own marks left to right [placeholders, placeholders_in_order]; a non-empty OR "
               "group is always one parenthesised unit, also around a single static operand [groups_parenthesised]; the text does "
-              "not change by one character when only values change [values_only_bound, noninterference]; no failure other than "
+              "not change by one character when only values change [values_only_bound, noninterference]; for conditions whose field "
+              "name is a str (the model's Cond type; the real code raises AssertionError for a (None, op, value) tuple and TypeError "
+              "for a non-str field such as (5, '=', 1): outside the model) no failure other than "
               "ValueError/AttributeError of a constructor, a refused parameter or TypeError for a non-text _order_by "
               "[only_rejections]; both clause tables and all fixed text pieces, regenerated from ak/mtd_sql.py on every run, "
               "spell the SQL the AST nodes mean [clauses_ok, consts_ok]. Model = code (SQL text, number of marks, parameter "
               "list, returned ids for list/all/one/one_or_none/SqlMethodT, exception classes, reuse of one SqlMethod object) by "
               "a differential run against the real SqlMethod on a real in-memory sqlite3; that SQLite evaluates the text and "
-              "orders rows as the model says rests on that run only (modelled, not verified).")
+              "orders rows as the model says, and that the driver writes an adapted object as the image the harness supplies, rests "
+              "on that run only (modelled, not verified). Documented exclusion: a static condition (a plain string) is the caller's "
+              "own SQL, not one of the condition kinds the statement lists; at top level it is AND-ed as it stands, so "
+              "m.list(conn, 'a = 7 OR id = 99', b=2) gives 'a = 7 OR id = 99 AND b = ?' without parentheses - the precedence is the "
+              "caller's; such calls are not judged (inside _or(...) a static text is one parenthesised unit: groups_parenthesised).")
 LEVEL_NOTE = ("Trusted: Lean kernel (axioms propext, Classical.choice, Quot.sound), translator/adapter/oracle in harness/c15.py, "
-              "sampled correspondence (rows over NULL/ints/texts with quotes, %, _, backslashes, SQL fragments; all 12 operations "
-              "x value kinds; list lengths up to 2500; column names incl. leading underscore; malformed stream limited to one "
+              "sampled correspondence (rows over NULL/ints/texts/BLOBs with quotes, %, _, backslashes, SQL fragments; all 12 operations "
+              "x value kinds incl. adapted objects; ORDER BY items that are expressions; list lengths up to 2500; column names incl. leading underscore; malformed stream limited to one "
               "failing constructor per call), sqlite3/SQLite 3.40.1, str.upper on ASCII. Out of the model: the inside of static "
-              "conditions (opaque; precedence of the parenthesised text rests on the tie), column affinity, floats/blobs, ints beyond 64 bit, NUL characters, GROUP BY semantics (text only), "
+              "conditions and of ORDER BY key expressions (opaque; their value per row is supplied; precedence of the parenthesised text "
+              "rests on the tie), column affinity, floats (REAL), bool, adapted objects whose image is not a text, ints beyond 64 bit, "
+              "NUL characters, COLLATE / NULLS FIRST|LAST / ASC in ORDER BY, ties under the requested order, GROUP BY semantics (text only), "
+              "conditions whose field name is not a str (AssertionError / TypeError of the real code), "
               "which exception wins when several conditions are malformed, _order_by='' (dangling ORDER BY).")
 TECHNIQUE = ("Lean 4: WHERE-clause AST with 3-valued semantics, mutual induction over the nested condition tree, insertion-sort "
-             "ORDER BY model; translator for clause tables, text constants and option keys; differential run against SqlMethod + "
+             "ORDER BY model over opaque key expressions, a value kind for driver-adapted objects; translator for clause tables, text constants and option keys; differential run against SqlMethod + "
              "sqlite3; independent 3VL oracle in Python with marker values for the bound-parameter checks")
